@@ -46,9 +46,10 @@ def applyNext (n : FNode) (ex : ExecResp) : Option (FNode × List SW × Bool) :=
       | .ok =>
         let root := execRoot n.lastState.appHash d.txs
         let st' := nextState n.lastState sh.hdr root
-        let w1 := SW.updateState st'
+        -- the block is saved before the state that says it was applied
+        let w1 := SW.saveBlock sh.hdr.height { sh := sh, data := d, savedSig := sh.sig }
         let s1 := n.store.apply w1
-        let w2 := SW.saveBlock sh.hdr.height { sh := sh, data := d, savedSig := sh.sig }
+        let w2 := SW.updateState st'
         let s2 := s1.apply w2
         let w3 := setHeightW s2 sh.hdr.height
         let s3 := s2.applyAll w3
@@ -129,6 +130,15 @@ def start (c : Cfg) (disk : Store) (caches : FNode := {}) : Option (FNode × Lis
   | some (s, d1, ws1) =>
     let ws2 := setHeightW d1 s.lastHeight
     let d2 := d1.applyAll ws2
-    some ({ caches with store := d2, lastState := s, alive := true }, ws1 ++ ws2)
+    -- `NewManager` raises both DA-submission watermarks to initialHeight - 1 (fix 6924f89), on every kind of node
+    match Producer.wmOf d2 Producer.hdrWmKey, Producer.wmOf d2 Producer.dataWmKey with
+    | some hw, some dw =>
+      let base := c.initialHeight - 1
+      let wh : List SW := if c.initialHeight > 1 ∧ base > hw then [.setMeta Producer.hdrWmKey (le64 base)] else []
+      let d3 := d2.applyAll wh
+      let wd : List SW := if c.initialHeight > 1 ∧ base > dw then [.setMeta Producer.dataWmKey (le64 base)] else []
+      let d4 := d3.applyAll wd
+      some ({ caches with store := d4, lastState := s, alive := true }, ws1 ++ ws2 ++ wh ++ wd)
+    | _, _ => none
 
 end Sync
